@@ -58,6 +58,8 @@ def gen_programs(ctx, n_random, max_small_ops, extra_parens=False):
     out = []
     for root in proggen.enumerate_small(max_small_ops, small_ops(ctx.tier)):
         out.append((proggen.pp(root), proggen.program_term(root), root, f'small<={max_small_ops}'))
+    for name, root in proggen.operator_pairs():
+        out.append((proggen.pp(root), proggen.program_term(root), root, 'pairs'))
     for _ in range(n_random):
         root = proggen.gen_program(rnd, rnd.randint(1, 4))
         src = proggen.pp(root, rnd if extra_parens else None)
